@@ -1112,11 +1112,15 @@ where
         remote: NodeId,
         result: Result<fetch::FetchResult, FetchError>,
     ) {
-        let Some(fetching) = self.fetching.remove(&rid) else {
+        // Nb. It's possible to receive a late result from a peer we are no longer fetching from,
+        // eg. if the peer disconnected and the repository is now being fetched from another peer.
+        if !matches!(self.fetching.get(&rid), Some(fetching) if fetching.from == remote) {
             error!(target: "service", "Received unexpected fetch result for {rid}, from {remote}");
             return;
+        }
+        let Some(fetching) = self.fetching.remove(&rid) else {
+            return;
         };
-        debug_assert_eq!(fetching.from, remote);
 
         if let Some(s) = self.sessions.get_mut(&remote) {
             // Mark this RID as fetched for this session.
